@@ -1,0 +1,13 @@
+//go:build verif
+
+package pclog
+
+// Contracts for govc (see /verif/DESIGN.md). Comment-only file: no executable code.
+
+//@ func (b *ProcessLogBuffer) GetLogRange
+//@   let L = len(b.buffer)
+//@   let o = ite(offsetFromEnd < 0, 0, ite(offsetFromEnd > L, L, offsetFromEnd))
+//@   let c = ite(limit < 1 || limit > o, o, limit)
+//@   ensures length: len(result) == c
+//@   ensures window: forall i int :: 0 <= i && i < c ==> result[i] == old(b.buffer[L - o + i])
+//@   assigns nothing
